@@ -23,8 +23,11 @@ TECHNIQUE = ("fault enumeration + fuzzing: for base datagrams of the reference a
              "replies, traps; v1, v2c, SNMPv3 at three levels) EVERY single-bit flip, EVERY truncation and EVERY value 0..255 at every "
              "TLV header octet is delivered through the real client / trap listener, also applied to the scoped PDU before it is "
              "encrypted and signed; Hypothesis adds random bytes and TLV trees with lying lengths and deep nesting; coverage-guided "
-             "atheris campaigns in the thorough tier. Oracle: CPU time and resident-memory growth bounded by a stated multiple of the "
-             "datagram size, and the same client / listener handles the next valid exchange correctly")
+             "atheris campaigns in the thorough tier; structured families on top: overlap chains in place of every message field, deep "
+             "proper nesting with DEBUG logging on / off, integer fields of any width, peers that answer every request of a call the same "
+             "way, and HISTORIES of hundreds of refused datagrams on one client / listener. Oracle: CPU time and resident-memory growth bounded by a stated multiple of the "
+             "datagram size, the same client / listener handles the next valid exchange correctly, a call ends within a fixed number of "
+             "datagrams, and what stays allocated after a history does not grow with its length")
 RULE = ("case = entry path {response, discovery reply, trap listener} x base datagram x mutation {bit i, truncation at n, header octet "
         "o := v, the same on the plaintext scoped PDU of an authenticated / encrypted message, raw bytes, generated TLV tree incl. wide flat sequences of up to 20000 tiny elements in every frame position, overlap chains (children that end beyond their parent) and properly nested values of depth 10..1500 with DEBUG logging on and off, on every entry path incl. the pythonic wrapper, Response / Report / discovery Report whose integer fields (request-id, error-status, error-index, boots, time, counter) have any width and value} + a peer that answers EVERY request of one call the same way (authentic notInTimeWindow report after a restart each time, one recorded report replayed, the first response replayed, unknownEngineID for ever: the call must end within 40 datagrams) + histories of 150..1800 refused datagrams on one client / listener (what stays allocated must not grow with their number); oracle "
         "budget: CPU <= 2 s + 100 us x len, resident-set growth <= 48 MiB + 1024 x len; non-trivial = the mutant is rejected (an "
